@@ -300,6 +300,14 @@ func differential(c *Case, p *reg.Preset, t *refssz.Type, x []byte, cls, desc st
 	}
 	// reference refuses, library accepts: tolerated only under the documented leniencies
 	if why := lenientAccepts(t, x); why != "" {
+		// leniency is about what is ACCEPTED, not about what is decoded: the value must be the one the
+		// tolerated reading of the input denotes (L1: the fixed-size prefix)
+		if strings.HasPrefix(why, "L1") && !strings.Contains(why, "+L-") {
+			out, err, pan := encodeLib(o)
+			if pan || err != nil || !bytes.Equal(out, x[:t.FixedSize()]) {
+				return fail(sigp+"/lenient-accept-decodes-wrong-value", "[%s] %s (%s): input longer than the fixed size is accepted (tolerated), but the decoded value does not encode to the input's first %d bytes (%v): %s; input %s", c.Preset, cls, desc, t.FixedSize(), err, refssz.DiffBytes(t, x[:t.FixedSize()], out), short(x))
+			}
+		}
 		return nil, why
 	}
 	return fail(sigp+"/accepts-malformed", "[%s] %s: %s — the reference decoder refuses (%v) but the library decodes it; input %s", c.Preset, cls, desc, rerr, short(x))
